@@ -1,6 +1,6 @@
 (* C15 — property theorems only.  Each is closed by `exact <lemma>` and followed by Print Assumptions. *)
 From Coq Require Import String List NArith ZArith Arith Bool.
-From Verif.C15 Require Import Model Spec Proofs ProofsForeign ProofsNoRewrite ProofsConv ProofsConv2 ProofsLoad ProofsApply ProofsRc ProofsApi ProofsHist.
+From Verif.C15 Require Import Model Spec Proofs ProofsForeign ProofsNoRewrite ProofsConv ProofsConv2 ProofsConv3 ProofsLoad ProofsApply ProofsRc ProofsApi ProofsHist ProofsFuel.
 Import ListNotations.
 
 (* Every rule and chain not owned by Felix is unchanged, including order.  For ANY Table state that keeps
@@ -51,12 +51,12 @@ Print Assumptions c15_no_rewrite_if_unchanged_hooks.
    is gone if it is not wanted (stale chains of an earlier Felix included); each other chain holds its foreign
    rules unchanged and in order with Felix's hook rules at the configured position (insert mode: hooks ++
    foreign ++ appends; append mode: foreign ++ hooks ++ appends) and every stale / old-hash / old-insert Felix
-   rule removed.  Both delete-by-value semantics.  Legacy backend. *)
+   rule removed.  Both delete-by-value semantics, both backends (legacy: positional -R/-D/-A delta; nft:
+   flush and rewrite, or skip when the non-empty cached hashes already match). *)
 Theorem c15_converges_transaction : forall cf dall t k cs k',
-  cf_nft cf = false ->
   uhyp cf t k -> apply_cmds cf t = Some cs -> exec dall k cs = Some k' ->
   forall c, get c k' = tgt cf t k c.
-Proof. exact update_converges'. Qed.
+Proof. exact update_converges_any. Qed.
 Print Assumptions c15_converges_transaction.
 
 (* c15_converges, full: for ANY kernel table k and ANY Table state satisfying the Table invariant [winv]
@@ -66,9 +66,11 @@ Print Assumptions c15_converges_transaction.
    if Apply() succeeds - after any number of injected save/restore failures and retries, with no edit racing
    between its read-back and its restore - then EVERY chain is at its target.  [noforge] is the RuleHashes
    assumption: a kernel line carrying the hash of a wanted rule of its chain is that rule's rendered text.
-   loadDataplaneState's marking (everything not marked is already at target) is now proved, not assumed. *)
+   loadDataplaneState's marking (everything not marked is already at target) is now proved, not assumed.
+   Holds for both backends (legacy and BackendMode nft; for nft the two transactions of one restore input are
+   one all-or-nothing unit). *)
 Theorem c15_converges : forall cf dall fs t k,
-  cf_nft cf = false -> winv cf t -> t_insync t = false -> no_racing fs -> noforge cf t k ->
+  winv cf t -> t_insync t = false -> no_racing fs -> noforge cf t k ->
   ao_result (apply cf dall fs t k) = Success ->
   forall c, get c (ao_kernel (apply cf dall fs t k)) = tgt cf t k c.
 Proof. exact apply_converges. Qed.
@@ -104,7 +106,7 @@ Print Assumptions c15_any_history_foreign.
 (* ... and after ANY such history from ANY starting kernel k0, once the cache is invalidated (timer) a
    successful Apply() without a racing edit brings every chain of the then-current kernel to its target. *)
 Theorem c15_any_history : forall cf dall k0 ops fs,
-  cf_nft cf = false -> cfg_ok cf -> Forall (op_ok cf) ops ->
+  cfg_ok cf -> Forall (op_ok cf) ops ->
   let s := final cf dall (init cf k0) ops in
   let t := invalidate (m_table s) in
   no_racing fs -> noforge cf t (m_kernel s) ->
@@ -112,6 +114,19 @@ Theorem c15_any_history : forall cf dall k0 ops fs,
   ao_result r = Success -> forall c, get c (ao_kernel r) = tgt cf t (m_kernel s) c.
 Proof. exact history_converges. Qed.
 Print Assumptions c15_any_history.
+
+(* Fuel sufficiency of the increfChain / decrefChain recursion.  Hypothesis: the chain reference graph is
+   ranked (a rank function strictly decreasing along every jump/goto of a chain present in the map, i.e. the
+   graph is acyclic) and the rank of the start chain is at most 1 + the number of map entries (true of the
+   longest-path rank of any acyclic graph: a path visits distinct present chains).  Then every amount of fuel
+   >= the model's fuel_of gives the same result as the model's: the fuelled functions are the real recursion.
+   The driver checks the hypothesis (acyclic, longest path <= number of wanted chains + 1) on every wanted
+   chain map it builds. *)
+Theorem c15_fuel_sufficient : forall rank t c f,
+  ranked (t_chains t) rank -> rank c <= S (length (t_chains t)) -> fuel_of t <= f ->
+  incref f t c = incref (fuel_of t) t c /\ decref f t c = decref (fuel_of t) t c.
+Proof. exact model_fuel_sufficient. Qed.
+Print Assumptions c15_fuel_sufficient.
 
 (* Non-vacuity: a kernel with a foreign rule, an old-insert rule and a stale hashed rule in FORWARD, a stale
    chain cali-old, and a wanted chain cali-a present with a wrong first rule and a surplus rule; one Apply
